@@ -15,7 +15,7 @@ from mc import base
 PROPERTY = "C08"
 LEVEL = "model_checking"
 
-BOUNDS = {"quick": [("empty", 4), ("family", 3), ("spent", 3), ("views", 4)], "thorough": [("empty", 5), ("family", 4), ("spent", 4), ("written", 4), ("views", 5)]}
+BOUNDS = {"quick": [("empty", 4), ("family", 3), ("spent", 3), ("views", 4), ("roview", 3)], "thorough": [("empty", 5), ("family", 4), ("spent", 4), ("written", 4), ("views", 5), ("roview", 4)]}
 MAX_SLOTS = 6
 
 
@@ -64,6 +64,11 @@ class World:
             self.add("V1", self.s["A"][1:], "npv")
             self.add("V2", self.s["A"][:3], "npv")
             self.add("x3", mg.tensor([1.0, 2.0, 3.0]), "ten")  # an input that does not touch A's memory
+        elif kind == "roview":
+            RV = self.s["A"][1:]
+            RV.flags.writeable = False  # the caller made this view of a writeable array read-only
+            self.add("RV", RV, "npv")
+            self.orig.append((weakref.ref(RV), False))
         elif kind == "written":
             x = mg.tensor([1.0, 2.0, 3.0, 4.0])
             self.add("x", x, "ten")
@@ -88,6 +93,9 @@ class World:
                 self.universe.append(weakref.ref(a))
 
     def orig_flag(self, arr):
+        for r, f in self.orig:  # an array registered itself (e.g. a view the caller made read-only)
+            if r() is arr:
+                return f
         u = ub(arr)
         for r, f in self.orig:
             if r() is u:
@@ -191,7 +199,10 @@ class World:
                         return ("writeable_in_live_graph", type(op).__name__, "an array of an intact live %s op is writeable (%s)" % (type(op).__name__, who[0] if who else "internal/base array"))
             del arrs
         del ops
-        for r in self.universe:
+        selfreg = [r() for r, _ in self.orig]
+        # arrays the caller itself made read-only are looked at last, so that finding F-C08b cannot mask
+        # a different violation in the same state
+        for r in sorted(self.universe, key=lambda r: any(r() is x for x in selfreg if x is not None and x.base is not None)):
             a = r()
             if a is None:
                 continue
@@ -519,4 +530,13 @@ def m_documented_lock_leak(v):
     return (v.get("case") or {}).get("world") in ("family",) and f.get("kind", "").startswith("flag_not_restored") and "iadd" in kinds and "backward" in kinds
 
 
-MATCHERS = {"documented_lock_leak": m_documented_lock_leak}
+def m_readonly_view_of_writeable_base(v):
+    """F-C08b: a view that the caller made read-only, of an array that is itself writeable, is handed to an op;
+    the lock manager takes it for a view that merely inherited a lock (its base is locked first, by the same
+    op) and 'restores' it to writeable on release."""
+    f = v.get("failure") or {}
+    return ((v.get("case") or {}).get("world") == "roview" and f.get("where") == "RV"
+            and str(f.get("kind", "")).startswith("flag_not_restored") and "writeable=True but originally False" in f.get("detail", "").replace("writeable=True, originally False", "writeable=True but originally False"))
+
+
+MATCHERS = {"documented_lock_leak": m_documented_lock_leak, "readonly_view_of_writeable_base": m_readonly_view_of_writeable_base}
